@@ -1,9 +1,228 @@
-(** C07 - candidates for an input are exactly the dictionary entries that its code spells. *)
-From Coq Require Import List Arith ZArith NArith Bool.
-From RimeV Require Import Lookup.Defs Lookup.Model Lookup.QueryProofs.
+(** C07 - candidates for an input are exactly the dictionary entries that its code spells.
+
+    Model: coq/Lookup/Model.v (Table::Query, match_extra_code, lookup_table, compare_chunk_by_head_element,
+    DictEntryIterator, Dictionary::LookupWords, ScriptTranslation, TableTranslation, LazyTableTranslation,
+    SentenceTranslation, DistinctTranslation).  The syllable graph, the table index and the prism are inputs
+    ([wf_graph], [graph_pruned], [wf_table], [table_sorted] state what C08 / C06 guarantee of them); Poet is an
+    oracle of which only the type of its answer is assumed.  All statements are for every graph, table, prism
+    and input: no bound on sizes. *)
+From Coq Require Import List Arith ZArith NArith Bool Sorted Permutation.
+From RimeV Require Import Lookup.Defs Lookup.Model Lookup.Spec Lookup.MapProofs Lookup.QueryProofs Lookup.IterProofs
+     Lookup.LookupProofs Lookup.ScriptProofs Lookup.TableProofs Lookup.Examples.
 Import ListNotations.
 
-Theorem C07_query_out_of_range : forall (g : graph) (t : table) (start : nat),
-  g_ilen g <= start -> query g t start = [].
-Proof. exact query_out_of_range. Qed.
-Print Assumptions C07_query_out_of_range.
+(** * Table::Query returns, at every end position, exactly the index codes that label a path of the graph *)
+Theorem C07_query_sound_complete : forall g t start e a,
+  wf_graph g -> start < g_ilen g ->
+  (In (e, a) (query g t start) <-> short_result g t start e a \/ long_result g t start e a).
+Proof. exact query_sound_complete. Qed.
+Print Assumptions C07_query_sound_complete.
+
+Theorem C07_query_short_codes : forall g t start c e,
+  wf_graph g -> wf_table t -> start < g_ilen g -> 1 <= length c <= 3 -> node_ents t c <> [] ->
+  ((exists cred, In (e, AccShort c (node_ents t c) cred) (query g t start)) <-> gpath g start c e).
+Proof. exact query_short_codes. Qed.
+Print Assumptions C07_query_short_codes.
+
+Theorem C07_query_tail_pages : forall g t start ic e,
+  wf_graph g -> wf_table t -> start < g_ilen g -> node_tail t ic <> [] ->
+  ((exists cred, In (e, AccLong ic (node_tail t ic) cred) (query g t start)) <->
+   gpath g start ic e /\ e < g_ilen g /\ exists index, In (e, index) (g_indices g)).
+Proof. exact query_tail_pages. Qed.
+Print Assumptions C07_query_tail_pages.
+
+(** * lookup_table + match_extra_code: the collector holds, under end position [e], exactly the table entries whose
+    code is spelled start -> e (codes longer than 3 syllables at the farthest end their extra code reaches) *)
+Theorem C07_collector_exact : forall g t start e c te,
+  wf_graph g -> wf_table t -> start < g_ilen g ->
+  ((exists ch, In (e, ch) (lookup_chunks g t start false) /\ c_code ch = c /\ In te (c_ents ch)) <->
+   table_has t c te /\ spelled g c start e).
+Proof. exact collector_exact. Qed.
+Print Assumptions C07_collector_exact.
+
+(** * DictEntryIterator: every entry exactly once, best head first *)
+Theorem C07_iterator_yields_every_entry_once : forall it,
+  Forall nonempty it -> Permutation (drain_all it) (all_entries it).
+Proof. exact drain_all_perm. Qed.
+Print Assumptions C07_iterator_yields_every_entry_once.
+
+Theorem C07_iterator_best_head_first : forall it,
+  Forall chunk_ok it -> StronglySorted dle (drain_all (sort_head it)).
+Proof. exact drain_all_sorted. Qed.
+Print Assumptions C07_iterator_best_head_first.
+
+(** * script translator: the phrase candidates are exactly the spelled entries *)
+Theorem C07_script_candidates_exact : forall g t e c txt,
+  wf_graph g -> wf_table t -> 0 < g_ilen g ->
+  (In (mkCand TPhrase 0 e txt c) (script_phrases (lookup g t 0 false)) <->
+   (exists w, table_has t c (mkTE txt w) /\ spelled g c 0 e)).
+Proof. exact script_candidates_exact. Qed.
+Print Assumptions C07_script_candidates_exact.
+
+Theorem C07_candidates_on_complete_segmentation : forall g c e,
+  graph_pruned g -> c <> [] -> gpath g 0 c e -> on_complete_segmentation g e.
+Proof. exact spelled_on_complete_segmentation. Qed.
+Print Assumptions C07_candidates_on_complete_segmentation.
+
+(** longer matches come before shorter ones *)
+Theorem C07_script_longer_first : forall g t start predict,
+  wf_graph g -> table_sorted t ->
+  StronglySorted (fun a b => k_end b <= k_end a) (script_phrases (lookup g t start predict)).
+Proof. exact script_longer_first. Qed.
+Print Assumptions C07_script_longer_first.
+
+(** the order the code implements: end positions descending, then exact before predictive, then weight +
+    credibility non-increasing *)
+Theorem C07_script_best_head_first : forall g t start predict,
+  wf_graph g -> table_sorted t ->
+  StronglySorted pe_le (script_phrase_entries (lookup g t start predict)).
+Proof. exact script_phrase_entries_sorted. Qed.
+Print Assumptions C07_script_best_head_first.
+
+(** the property's wording: entries with the same code appear in non-increasing (dictionary) weight order.
+    Proved in the form the code implements - weight PLUS the credibility of the path the chunk was reached over;
+    two chunks of one code reached over different paths (spelling algebra only) may carry different credibilities,
+    and then the dictionary weights of the undeduplicated stream need not be monotone (the duplicates are removed by
+    DistinctTranslation; that the first occurrences are monotone is covered by the correspondence only). *)
+Definition C07_same_code_weight_order_full : Prop := forall g t start predict l1 a l2 b l3 (wa wb : Z),
+  wf_graph g -> table_sorted t ->
+  script_phrase_entries (lookup g t start predict) = l1 ++ a :: l2 ++ b :: l3 ->
+  fst a = fst b -> d_code (snd a) = d_code (snd b) ->
+  table_has t (d_code (snd a)) (mkTE (d_text (snd a)) wa) -> table_has t (d_code (snd b)) (mkTE (d_text (snd b)) wb) ->
+  (wb <= wa)%Z.
+
+Theorem C07_same_code_weight_order_partial : forall g t start predict l1 a l2 b l3,
+  wf_graph g -> table_sorted t ->
+  script_phrase_entries (lookup g t start predict) = l1 ++ a :: l2 ++ b :: l3 ->
+  fst a = fst b -> (d_match (snd a) =? 0) = (d_match (snd b) =? 0) ->
+  (d_w (snd b) <= d_w (snd a))%Z.
+Proof. exact script_same_end_weight_order. Qed.
+Print Assumptions C07_same_code_weight_order_partial.
+
+(** * the sentence is a concatenation of spelled entries covering the interpreted input (Poet: oracle) *)
+Theorem C07_sentence_is_concatenation : forall (poet : wgraph -> nat -> option sentence),
+  (forall wg total s, poet wg total = Some s -> wg_path_ok wg 0 total s = true) ->
+  forall g t mh s, wf_graph g -> wf_table t ->
+  poet (script_wgraph g t mh) (g_ilen g) = Some s -> chain g t 0 (g_ilen g) s.
+Proof. exact sentence_is_concatenation. Qed.
+Print Assumptions C07_sentence_is_concatenation.
+
+(** * nothing foreign; every spelled entry is there *)
+Theorem C07_script_no_foreign_candidate : forall (poet : wgraph -> nat -> option sentence),
+  (forall wg total s, poet wg total = Some s -> wg_path_ok wg 0 total s = true) ->
+  forall wordcompl mh g t c, wf_graph g -> wf_table t ->
+  In c (script_query poet wordcompl mh g t) ->
+  phrase_ok g t c \/ completion_ok g t wordcompl c \/ sentence_ok g t c.
+Proof. exact script_no_foreign_candidate. Qed.
+Print Assumptions C07_script_no_foreign_candidate.
+
+Theorem C07_script_contains_every_entry : forall (poet : wgraph -> nat -> option sentence) wordcompl mh g t c te e,
+  wf_graph g -> wf_table t -> 0 < g_ilen g ->
+  table_has t c te -> gpath g 0 c e ->
+  exists k, In k (script_query poet wordcompl mh g t) /\ k_text k = te_text te.
+Proof. exact script_contains_every_entry. Qed.
+Print Assumptions C07_script_contains_every_entry.
+
+Theorem C07_distinct_keeps_first_occurrences : forall l c,
+  In c l -> exists c', In c' (distinct [] l) /\ k_text c' = k_text c.
+Proof. exact distinct_complete. Qed.
+Print Assumptions C07_distinct_keeps_first_occurrences.
+
+(** * table translator *)
+(** entries whose code equals the input: all of them, in non-increasing weight order (after the repair 3b72e76) *)
+Theorem C07_table_exact_weight_order : forall pr syls t code,
+  table_sorted t ->
+  StronglySorted (fun a b => (d_w b <= d_w a)%Z) (table_entries true false pr syls t code) /\
+  Permutation (table_entries true false pr syls t code) (all_entries (plain_chunks pr syls t code)).
+Proof. exact table_exact_weight_order. Qed.
+Print Assumptions C07_table_exact_weight_order.
+
+(** before the repair the statement is false of the faithful model: the witness (a key spelling two syllables) is
+    replayed on the real code by the check's algebra schemas *)
+Theorem C07_table_exact_weight_order_unsorted_refuted :
+  exists pr syls t code, table_sorted t /\
+    ~ StronglySorted (fun a b => (d_w b <= d_w a)%Z) (table_entries false false pr syls t code).
+Proof. exact table_exact_weight_order_unsorted_refuted. Qed.
+Print Assumptions C07_table_exact_weight_order_unsorted_refuted.
+
+(** no completion candidate when completion is disabled: only entries of syllables the input itself spells *)
+Theorem C07_table_no_completion_when_disabled : forall presort pr syls t code d,
+  In d (table_entries presort false pr syls t code) ->
+  d_remlen d = 0 /\ exists sps sid, In (code, sps) pr /\ In (sid, 0) sps /\ d_code d = [sid] /\
+                               In (mkTE (d_text d) (d_w d)) (node_ents t [sid]).
+Proof. exact table_no_completion_when_disabled. Qed.
+Print Assumptions C07_table_no_completion_when_disabled.
+
+(** with completion: whatever the number of fetches, every entry shown belongs to a key that extends the input *)
+Theorem C07_table_completion_sound : forall presort pr syls t code d,
+  In d (table_entries presort true pr syls t code) ->
+  exists key sps sid, is_prefix code key = true /\ In (key, sps) pr /\ In (sid, 0) sps /\ d_code d = [sid] /\
+                      In (mkTE (d_text d) (d_w d)) (node_ents t [sid]).
+Proof. exact table_completion_candidates_sound. Qed.
+Print Assumptions C07_table_completion_sound.
+
+(** exact matches first in weight order, then completions: the full statement quantifies over every number of keys;
+    proved when fewer than 10 keys extend the input (one fetch of LazyTableTranslation).  The fetch-more protocol for
+    10 or more keys (limit 10, 100, ...; Skip over the entries already shown) is covered by the correspondence only. *)
+Definition C07_table_exact_then_completion_full : Prop := forall pr syls t code,
+  table_sorted t ->
+  let chunks := snd (lookup_words pr syls t code true 0) in
+  Permutation (table_entries true true pr syls t code) (all_entries chunks) /\
+  StronglySorted dle (table_entries true true pr syls t code).
+
+Theorem C07_table_exact_then_completion_partial : forall pr syls t code,
+  table_sorted t ->
+  fst (lookup_words pr syls t code true 10) < 10 ->
+  let chunks := snd (lookup_words pr syls t code true 0) in
+  Permutation (table_entries true true pr syls t code) (all_entries chunks) /\
+  StronglySorted dle (table_entries true true pr syls t code).
+Proof. exact table_exact_then_completion_partial. Qed.
+Print Assumptions C07_table_exact_then_completion_partial.
+
+(** [dle] on table entries: no remaining code (code equals the input) first, by non-increasing weight *)
+Theorem C07_table_order_meaning : forall a b,
+  dle a b -> d_match a = 0 -> d_match b = 0 ->
+  d_remlen a <= d_remlen b /\ (d_remlen a = d_remlen b -> (d_w b <= d_w a)%Z).
+Proof. exact dle_table. Qed.
+Print Assumptions C07_table_order_meaning.
+
+(** sentence mode of the table translator: the prefix phrases come longest first *)
+Theorem C07_prefix_phrases_longer_first : forall coll,
+  StronglySorted (fun a b => k_end b <= k_end a) (prefix_phrases coll).
+Proof. exact prefix_phrases_desc. Qed.
+Print Assumptions C07_prefix_phrases_longer_first.
+
+(** ... but they are NOT confined to prefixes on a complete segmentation (known finding, replayed on the real code) *)
+Theorem C07_table_prefix_phrases_off_segmentation_witness :
+  map (fun c => (k_end c, k_text c))
+      (table_query (fun _ _ => Some f1_sentence) false true f1_prism f1_syls f1_table [39%N] f1_input)
+  = [(4, [68%N; 66%N]); (3, [68%N]); (2, [67%N]); (1, [66%N])] /\
+  wg_path_ok (table_wgraph f1_prism f1_syls f1_table [39%N] f1_input) 0 4 f1_sentence = true /\
+  common_prefix f1_prism (skipn 1 f1_input) = [] /\ common_prefix f1_prism (skipn 2 f1_input) = [].
+Proof. exact table_prefix_phrases_off_segmentation. Qed.
+Print Assumptions C07_table_prefix_phrases_off_segmentation_witness.
+
+(** * non-vacuity *)
+Theorem C07_example_meets_hypotheses :
+  wf_graph ex_g /\ graph_pruned ex_g /\ wf_table ex_t /\ table_sorted ex_t /\ 0 < g_ilen ex_g /\
+  table_has ex_t [0; 0; 0; 0; 0] tZ /\ spelled ex_g [0; 0; 0; 0; 0] 0 5 /\
+  In (mkCand TPhrase 0 5 [90%N] [0; 0; 0; 0; 0]) (script_phrases (lookup ex_g ex_t 0 false)).
+Proof. exact example_meets_hypotheses. Qed.
+Print Assumptions C07_example_meets_hypotheses.
+
+Theorem C07_example_candidates :
+  map (fun c => (k_end c, k_text c, k_code c)) (script_phrases (lookup ex_g ex_t 0 false))
+  = [(5, [90%N], [0; 0; 0; 0; 0]); (4, [87%N], [0; 0; 0; 0]); (2, [88%N; 88%N], [0; 0]); (1, [88%N], [0]); (1, [89%N], [0])].
+Proof. exact ex_script_phrases. Qed.
+Print Assumptions C07_example_candidates.
+
+Theorem C07_example_word_completion :
+  map (fun c => (k_type c, k_end c, k_text c)) (script_phrases (lookup ex_g4 ex_t 0 true))
+  = [(TPhrase, 4, [87%N]); (TCompletion, 4, [90%N]); (TPhrase, 2, [88%N; 88%N]); (TPhrase, 1, [88%N]); (TPhrase, 1, [89%N])].
+Proof. exact ex_script_completion. Qed.
+Print Assumptions C07_example_word_completion.
+
+Theorem C07_example_table_after_repair :
+  map d_w (table_entries true false ex_prism ex_syls ex_table [98%N]) = [100%Z; 2%Z; 1%Z].
+Proof. exact table_exact_weight_order_example. Qed.
+Print Assumptions C07_example_table_after_repair.
